@@ -119,6 +119,7 @@ impl B {
                 delay: 0,
                 shift_of: None,
                 slice: vec![],
+                concat: false,
             });
             refs.insert(oname, r.clone());
         }
